@@ -29,3 +29,6 @@ def run(ck):
                       "arithmetic, phase operations, decompositions) from random sparse inputs over Z2/U1/Z2Z2/U1U1/Z4, static and "
                       "dynamic classes, four dtypes; Valid() is evaluated by TLC on every array of every event")
     ck.conform(progs)
+    if ck.tier != "quick":
+        ck.suite_trace(intfill=False)
+        ck.suite_trace(intfill=True, limit=48)
